@@ -91,6 +91,7 @@ type ticket struct {
 	abs       int64 // absolute block, known once finalized (-1 before)
 	off       int64
 	finalized bool
+	held      buffer.Buffer
 }
 
 // Sut is one real block map.
@@ -222,6 +223,33 @@ func (s *Sut) Exec(line string) string {
 			return "err " + code(err)
 		}
 		return fmt.Sprintf("ok %d %d", loc.BlockIndex, loc.OffsetBytes)
+	case "hold":
+		n, _ := strconv.Atoi(w[1])
+		if n >= len(s.tickets) || s.Dev == nil || s.tickets[n].held != nil {
+			return "bad-op"
+		}
+		t := s.tickets[n]
+		rel := t.abs - s.Released()
+		getter, _ := s.LBM.Get(local.Location{BlockIndex: int(rel), OffsetBytes: t.off, SizeBytes: int64(len(t.data))})
+		t.held = getter(t.dig)
+		return "ok"
+	case "badread":
+		n, _ := strconv.Atoi(w[1])
+		if n >= len(s.tickets) || s.tickets[n].held == nil {
+			return "bad-op"
+		}
+		t := s.tickets[n]
+		s.Dev.CorruptReads = 1
+		_, err := t.held.ToByteSlice(len(t.data) + 1)
+		s.Dev.CorruptReads = 0
+		t.held = nil
+		if err == nil {
+			return "read-succeeded"
+		}
+		if c := code(err); c != "internal" {
+			return "read-failed-" + c
+		}
+		return "ok"
 	case "corrupt":
 		n, _ := strconv.Atoi(w[1])
 		if n >= len(s.tickets) || s.Dev == nil {
@@ -247,6 +275,9 @@ func (s *Sut) Exec(line string) string {
 	}
 	return "bad-op"
 }
+
+// Held reports whether a reader on the ticket is being held open.
+func (s *Sut) Held(n int) bool { return n < len(s.tickets) && s.tickets[n].held != nil }
 
 // TicketAbs returns the absolute block of a ticket (or -1).
 func (s *Sut) TicketAbs(n int) int64 {
@@ -365,7 +396,14 @@ func RunCase(run *hx.Run, model *hx.Model, name string, script []string) Result 
 					delete(touches, o)
 				}
 			} else if afterCorruption && arg <= cfg.BlockSize() {
-				oracle("C08", "the store stopped accepting uploads after a corruption was detected", line+" -> "+r)
+				// UNAVAILABLE is legitimate while a reader pins a released block or no spare block exists
+				anyHeld := false
+				for i := 0; i < s.Tickets(); i++ {
+					anyHeld = anyHeld || s.Held(i)
+				}
+				if r != "err unavailable" || (!anyHeld && cfg.Spare >= 1) {
+					oracle("C08", "the store stopped accepting uploads after a corruption was detected", line+" -> "+r)
+				}
 			}
 			afterCorruption = false
 			checkState()
@@ -386,6 +424,31 @@ func RunCase(run *hx.Run, model *hx.Model, name string, script []string) Result 
 			if abs < 0 || rel < 0 || int(rel) >= s.Total() || !s.Resolvable()[rel] {
 				continue
 			}
+			r := emit(line)
+			if r != "ok" {
+				oracle("C08", "a read of corrupted data did not fail with INTERNAL", line+" -> "+r)
+			}
+			if abs > quarantined {
+				quarantined = abs
+			}
+			corruptEpoch++
+			afterCorruption = true
+			checkState()
+		case "hold":
+			if arg >= s.Tickets() || s.Dev == nil || s.TicketSize(arg) == 0 || s.Held(arg) {
+				continue
+			}
+			abs := s.TicketAbs(arg)
+			rel := abs - s.Released()
+			if abs < 0 || rel < 0 || int(rel) >= s.Total() || !s.Resolvable()[rel] {
+				continue
+			}
+			emit(line)
+		case "badread":
+			if !s.Held(arg) {
+				continue
+			}
+			abs := s.TicketAbs(arg)
 			r := emit(line)
 			if r != "ok" {
 				oracle("C08", "a read of corrupted data did not fail with INTERNAL", line+" -> "+r)
@@ -472,7 +535,14 @@ func GenScript(r *hx.Rand, nops int, corruption int) []string {
 		case x < 75:
 			script = append(script, fmt.Sprintf("touch %d", r.Intn(nobj)))
 		case x < 75+corruption:
-			script = append(script, fmt.Sprintf("corrupt %d", r.Intn(i+1)))
+			switch r.Intn(3) {
+			case 0:
+				script = append(script, fmt.Sprintf("corrupt %d", r.Intn(i+1)))
+			case 1:
+				script = append(script, fmt.Sprintf("hold %d", r.Intn(i+1)))
+			default:
+				script = append(script, fmt.Sprintf("badread %d", r.Intn(i+1)))
+			}
 		default:
 			script = append(script, fmt.Sprintf("fin %d", r.Intn(i+1)))
 		}
